@@ -116,6 +116,15 @@ theorem tie_sem_no_state_between_calls :
     Extracted.C04.srvCapturedWrites = [] ∧ Extracted.C04.cliCapturedWrites = [] ∧
     Extracted.C04.fxCapturedWrites = [] ∧ Extracted.C04.restCapturedWrites = [] := by decide
 
+/-- no package-level variable in any of the four files: nothing (a pool of writers, a cached context, a shared buffer)
+outlives a request / a call; with `tie_sem_no_state_between_calls` this is what makes several requests in flight the free
+product of single-request systems (`Model.mstep`, Props `multi_request_independent`) -/
+theorem tie_sem_no_package_state :
+    Extracted.C04.restPackageVars = [] ∧ Extracted.C04.srvPackageVars = [] ∧
+    Extracted.C04.cliPackageVars = [] ∧
+    -- fx: only the two exported error aliases (values of `context`, assigned nowhere in the file: `fxCapturedWrites = []`)
+    Extracted.C04.fxPackageVars = ["ErrCanceled = context.Canceled", "ErrTimeout = context.DeadlineExceeded"] := by decide
+
 example : Extracted.C04.srvHandlerCtx 2000 [(1, 120000), (0, 7), (1, 180000)] (some 500000) 10 1 = some 180010 := by decide
 example : Extracted.C04.cliInvokerCtx 60000 (some 20500) 10 [none, some 15000] = some 15010 := by decide
 example : Extracted.C04.fxSelectCtx 50 [some 10, some 700] 100 = some 150 := by decide
